@@ -728,7 +728,11 @@ def run_replay(ctx):
                               {"kind": "notify-trace", "line": open(out).read().split("\n")[x["line"] - 1], "rejected": x, "args": p["args"]})
         return
     if p.get("kind") == "notify-crash":
+        args = list(p["args"])
+        for flag, name in (("-out", "again.ndjson"), ("-dir", "csrv_again")):
+            if flag in args:
+                args[args.index(flag) + 1] = os.path.join(ctx.scratch, name)
         for i in range(5):
-            harness_or_crash(ctx, p["args"], "replay", timeout=3000)
+            harness_or_crash(ctx, args, "replay", timeout=3000)
         return
     raise common.Infra("unknown replay file")
